@@ -13,7 +13,8 @@ const (
 )
 
 func (c *CmdWrapper) Stop(sig int, parentOnly bool) error {
-	if c.cmd == nil {
+	if c.cmd == nil || c.cmd.Process == nil {
+		// never started, or the start failed: there is nothing to signal
 		return nil
 	}
 	if sig < min_sig || sig > max_sig {
